@@ -14,7 +14,7 @@ use crate::proto::{Ctx, attrs};
 pub fn meta() -> Meta {
     Meta {
         level: "exploration",
-        rule: "exhaustive: n=3, all 6 variable orders: empty/base/singleton(v); subset0/subset1/change for all 256 families x 3 variables; union/intsec/diff for all 65536 pairs; make_node(var, hi, lo) for every variable and every (hi, lo) pair of families that mention only variables below var's level; Boolean view (eval over all manager variables = membership); every ordered pair of distinct orders: families built under the first order (all 256, and a sparse live set), set_var_order to the second, then family / subset0 / subset1 / change / union / intsec / diff / singleton; then add_vars(1) (twice): every old handle keeps its family, its Boolean view is false whenever a new variable is true, and operations between old and new handles still agree with the model on n+1 variables. thorough: n=4 all 65536 families for the unary operations under 3 orders. Non-trivial: operand families are neither empty nor {∅} and distinct.",
+        rule: "exhaustive: n=3, all 6 variable orders: empty/base/singleton(v); subset0/subset1/change for all 256 families x 3 variables; union/intsec/diff for all 65536 pairs; make_node(var, hi, lo) for every variable and every (hi, lo) pair of families that mention only variables below var's level; Boolean view (eval over all manager variables = membership); every ordered pair of distinct orders: families built under the first order (all 256, and a sparse live set), set_var_order to the second, then family / subset0 / subset1 / change / union / intsec / diff / singleton; then add_vars(1) (twice): every old handle keeps its family, its Boolean view is false whenever a new variable is true, and operations between old and new handles still agree with the model on n+1 variables. Before the first add_vars the full family is used in diff/intsec/not on every handle (results dropped), afterwards every family 'all sets over the variables from level l downwards' is combined with every old handle. thorough: n=4 all 65536 families for the unary operations under 3 orders. Non-trivial: operand families are neither empty nor {∅} and distinct.",
         assumptions: vec![
             "operand families are built through reduce/then_insert; results are read by the harness's own family interpreter".into(),
             "random families over 5..8 variables not enumerated".into(),
